@@ -75,6 +75,61 @@ def variational_generous(run, rng, quick):
     return done
 
 
+def ensure_canonical_claims(run, rng, quick):
+    """after `ensure_left_canonical` / `ensure_right_canonical` every site away from the centre must be an isometry (complex Gram
+    matrix computed here, not the library's own test), the object unchanged.  Inputs: sums whose bookkeeping flags are inherited from
+    a canonical operand while the tensors are not isometric — real + i*real (purely imaginary Gram deviations), real + real, complex."""
+    from renormalizer.model import Model, Op
+    from renormalizer.model import basis as ba
+    from renormalizer.mps import Mps
+    import lib_chain as lc
+    done = 0
+    for _ in range(8 if quick else 60):
+        n = int(rng.integers(3, 6))
+        basis = [ba.BasisSimpleElectron(f"e{i}") if i % 2 == 0 else ba.BasisSHO(f"v{i}", 1.0 + 0.1 * i, 3) for i in range(n)]
+        model = Model(basis, [Op(r"a^\dagger a", f"e{i}", 1.0) for i in range(0, n, 2)])
+        np.random.seed(int(rng.integers(2 ** 31)))
+        try:
+            a = Mps.random(model, 1, 4, percent=1.0).canonicalise()
+            kind = str(rng.choice(["real+i*real", "real+real", "complex+complex"]))
+            b = Mps.random(model, 1, 4, percent=1.0)
+            if kind == "real+i*real":
+                b = b.scale(1j)
+            elif kind == "complex+complex":
+                a = a.to_complex().scale(complex(0.6, 0.8))
+                b = b.to_complex().scale(complex(0.3, -0.5))
+            b = b.canonicalise()
+            s = a + b
+            ref = np.asarray(a.todense()).ravel() * complex(a.coeff) + np.asarray(b.todense()).ravel() * complex(b.coeff)
+        except Exception as e:  # noqa
+            run.count("ensure-canonical-setup-raised:" + type(e).__name__)
+            continue
+        for side in ("left", "right"):
+            t = s.copy()
+            try:
+                t.ensure_left_canonical() if side == "left" else t.ensure_right_canonical()
+            except Exception as e:  # noqa
+                run.violation(f"ensure_{side}_canonical:raises:{type(e).__name__}", dict(kind=kind, nsite=n, error=repr(e)[:200]))
+                continue
+            done += 1
+            run.count(f"ensure-canonical:{side}:{kind}")
+            got = np.asarray(t.todense()).ravel() * complex(t.coeff)
+            worst = 0.0
+            sites = range(0, n - 1) if side == "left" else range(1, n)
+            for i in sites:
+                m = np.asarray(t[i].array)
+                mat = m.reshape(-1, m.shape[-1]) if side == "left" else m.reshape(m.shape[0], -1).conj().T
+                g = mat.conj().T @ mat
+                worst = max(worst, float(np.max(np.abs(g - np.eye(g.shape[0])))))
+            if np.linalg.norm(got - ref) > 1e-9 * max(1.0, np.linalg.norm(ref)):
+                run.violation(f"ensure_{side}_canonical:object-changed", dict(kind=kind, nsite=n, chain=lc.dump_chain(s)))
+            elif worst > 1e-8:
+                run.violation(f"ensure_{side}_canonical:site-not-isometric",
+                              dict(kind=kind, nsite=n, deviation=worst, chain=lc.dump_chain(s),
+                                   what="a site away from the centre is not an isometry after ensure_*_canonical (full complex Gram matrix)"))
+    return done
+
+
 def main():
     run = Run("C04", level="proof")
     quick = run.tier != "thorough"
@@ -170,6 +225,7 @@ def main():
             run.violation("corr:sweep-dims", dict(correspondence="RenoVerif.Chain.sweepR vs bond_dims after canonicalise (no symmetry blocks)",
                                                   info=info, model=got), no_input=True)
     # ---- (c) variational compression with a generous bond limit and a deliberately poor guess must reach mpo @ mps
+    run.cov["ensure_canonical_cases"] = ensure_canonical_claims(run, rng, quick)
     nvar = variational_generous(run, rng, quick)
     run.cov["variational_generous_cases"] = nvar
     run.cov.update(programs=len(reqs) + made, disagreements_checked=len(reqs) + rec["n"], evaluations=rec["n"] + len(reqs),
